@@ -228,7 +228,7 @@ P("C02", "proof", [K_SYS["cvt_mode"], K_SYS["cvt_interest"], K_SYS["table"], K_S
   outside="that the kernel reports level/edge/oneshot as documented; batches larger than the poller buffer")
 P("C03", "proof", [K_PING["decode"], K_PING["inc"]], bounds="all 2^64 counter values",
   outside="counter saturation after 2^63 undrained pings; weak memory")
-P("C05", "proof", [K_TIMER["first"], K_TIMER["cmp"], K_TIMER["match"], K_SYS["clamp"], K_SYS["selftest"]],
+P("C05", "proof", [K_TIMER["first"], K_TIMER["cmp"], K_TIMER["match"], K_TIMER["inflight"], K_SYS["clamp"], K_SYS["selftest"]],
   bounds="3 heap entries; instants below 10^6 s",
   outside="u32 heap counter wrapping after 2^32 insertions; wall-clock behaviour of the real poller")
 P("C06", "proof", K_LIST[1:] + K_LIST[:1] + K_REENT, bounds="2-3 slots, all generations",
@@ -294,6 +294,7 @@ M_DE = {
     "re1": M("re1_no_guards", OB.ob_re1_no_guards, OB.ob_re1_no_guards.__doc__, DE_FN, DE_B),
     "lc2": M("lc2_order", OB.ob_lc2_order, OB.ob_lc2_order.__doc__, DE_FN, DE_B + "; the before_sleep loop unrolled once more"),
     "err1": M("err1", OB.ob_err1, OB.ob_err1.__doc__, DE_FN, DE_B),
+    "err2": M("err2_batch", OB.ob_err2_batch, OB.ob_err2_batch.__doc__, DE_FN, DE_B, replay=["d8_error_drops_batch_remainder"]),
 }
 
 H_FN = ["LoopHandle::remove", "LoopHandle::disable", "LoopHandle::update", "LoopHandle::enable",
@@ -344,6 +345,12 @@ M_IO = {
             "Async::poll_read_vectored", "Async::poll_write", "Async::poll_write_vectored", "Async::poll_flush"], "all paths"),
 }
 
+M_TM = {
+    "wheel": M("wheel", OB.ob_wheel, OB.ob_wheel.__doc__, ["TimerWheel::next_expired", "TimerWheel::cancel (+closures)", "TimerWheel::insert",
+               "TimerWheel::insert_reuse"], "all paths (loop-free; std BinaryHeap calls are events)", replay=["c05_timer_scenarios"]),
+    "timer": M("timer", OB.ob_timer, OB.ob_timer.__doc__, ["<Timer as EventSource>::register", "::unregister", "::reregister", "::process_events"],
+               "all paths (loop-free)", replay=["c05_timer_scenarios"]),
+}
 from mirsym import pqueries as PQ   # noqa: E402
 
 P_Q = {
@@ -373,6 +380,7 @@ P("C04", "model_checking", [], [M_CH["send"], M_CH["process"], M_PING["ping"], P
   bounds="engine M: all paths, receive loop unrolled twice, batch limit for every 64-bit capacity; engine P: see obligation bounds",
   outside="std::sync::mpsc itself (linearizable FIFO, disconnect when the last sender is dropped; try_recv on a zero-capacity "
           "channel pairs with a blocked sender); weak memory; more than one sender thread in the interleaving query")
+addm("C05", [M_TM["wheel"], M_TM["timer"]])
 addm("C06", [M_H["remove"], M_H["disable"], M_H["update"], M_H["enable"], M_DE["rm3"]])
 addm("C07", [M_H["disable"], M_H["enable"], M_DE["pa2"]])
 addm("C08", [M_DE["re1"], M_H["re2"], M_EX["process"], M_DE["pa2"], M_H["idles"]])
@@ -388,7 +396,7 @@ P("C11", "model_checking", [], [M_L["run"], M_L["block_on"], M_L["signal"], P_Q[
 addm("C12", [M_DE["lc2"]])
 addm("C13", [M_H["idles"], M_H["insidle"]])
 addm("C14", [M_DE["lc2"], M_DE["fsub"]])
-addm("C15", [M_H["reg1"], M_IO["new"], M_DE["err1"], M_DE["pa2"]])
+addm("C15", [M_H["reg1"], M_IO["new"], M_DE["err1"], M_DE["err2"], M_DE["pa2"]])
 addm("C16", [M_IO["drop"], M_IO["new"], M_DE["rm3"]])
 addm("C17", [M_IO["io"], M_IO["new"], M_IO["drop"]])
 for _p in ("C03",):
